@@ -114,6 +114,17 @@ fn syntax_reject() {
     reject("func f(a int32, string) {}", "", "syntax");
     reject("", "go 1", "syntax");
     reject("", "'ab'", "syntax");
+    // keywords used as identifiers are syntax errors, not "unsupported"
+    reject("", "var x int32 = map\n    _ = x", "syntax");
+    reject("", "var x int32 = chan + 1\n    _ = x", "syntax");
+    reject("", "defer = 1", "syntax");
+    reject("", "go = 1", "syntax");
+    reject("", "var x int32\n    x = range", "syntax");
+    reject("", "var type int32 = 1", "syntax");
+    reject("", "type = 1", "syntax");
+    reject("", "select = 1", "syntax");
+    reject("", "var x int32 = func\n    _ = x", "syntax");
+    reject("", "var x int32 = struct\n    _ = x", "syntax");
 }
 
 #[test]
@@ -513,7 +524,11 @@ fn unsupported_constructs() {
     unsupported_src("package main\nfunc f[T any](x T) {}\nfunc main() {}\n");
     unsupported_src("package main\nfunc main() { a, b := 1, 2\n _ = a\n _ = b }\n");
     unsupported_src("package main\nfunc main() { var x float64 = 1.5 + 2.5\n _ = x }\n");
-    unsupported_src("package main\nfunc main() { var x float64 = 100000000000000000000000000000000000000000\n _ = x }\n");
+    unsupported_src("package main\nfunc main() { var x float64 = 0xffffffffffffffffffffffffffffffffffffffff\n _ = x }\n");
+    unsupported_src("package main\nfunc main() { var x = 100000000000000000000000000000000000000000 / 100000000000000000000000000000000000000000\n _ = x }\n");
+    // a huge decimal integer literal is fine as a float constant, and a certain overflow for ints
+    accept_src("package main\nfunc main() { var x float64 = 100000000000000000000000000000000000000000\n _ = x }\n");
+    reject_src("package main\nfunc main() { var x int64 = 100000000000000000000000000000000000000000\n _ = x }\n", "const-overflow");
     unsupported_src("package main\nimport \"fmt\"\nfunc main() { fmt.Printf(\"x\") }\n");
     unsupported_src("package main\nfunc main() { var e error\n _ = e }\n");
     unsupported_src("package main\nfunc main() { x := make([]int32, 3)\n _ = x }\n");
